@@ -7,8 +7,8 @@ from .c08_c09_util import coq_eval_parts, coq_eval_sharded
 LEVEL = "proof"
 META = {
     "category": "proof",
-    "text": "Coq theorems over a state-passing model of the resolver (context counters, option gating, parameter-list and argument-list scans, load rules, assignment targets, scoping with the block table and lookupLexical's memoisation) against a declarative specification of the static rules: for ALL programs of the modelled syntax and ALL 2^6 option vectors a (rule, position) is reported iff the specification says the rule is violated there, for the 30 rules that need no name resolution beyond the parameter list itself (break/continue/return/load placement, if/for/while at top level, while, assignment targets, order and duplicates of arguments, the 255 limits, order and duplicates of parameters, bare *); the scoping rule 'undefined name' is proved against a declarative scoping specification (ScopeSpec.v: every identifier use with the binding sets of its enclosing function/comprehension blocks; undefined = bound by no enclosing block, by no file-level binding of the module -- anywhere in the file, or so far under GlobalReassign --, not predeclared, not universal): every 'undefined' report is at an undefined use, every undefined use leads to a report at an undefined use of the same name (lookupLexical memoises failed lookups, so repeats inside one block tree are reported once), an undefined use outside every block is reported at its own position every time, a program is rejected for an undefined name iff it has an undefined use, and the check's executable oracle Spec.scope_viol names exactly these uses on regular programs (two corners where it differs from the resolver are stated as examples); while and top-level if/for/while are rejected exactly when While resp. TopLevelControl is off and no other option influences these rules; an option that is ON never causes a rejection (all six options, including Set and GlobalReassign); duplicate parameters are reported exactly as specified for every parameter list; a rejected program performs no effect in the pipeline model; and, over a model of Call/CallInternal's stack scan: with recursion off the active function frames have pairwise distinct code identities under ALL call sequences (direct, mutual, through built-in frames, through different closures of one definition) and a re-entering call fails. Tied to /repo on every run: generated programs with one of 125 planted constructs x option vectors through the real parse/resolve/compile/run pipeline with logging built-ins; the real syntax tree is translated into the model's syntax and the model's error list compared with the resolver's (exact list, vm_compute), the specification (incl. an executable scoping oracle) with the reported errors; call graphs reaching an active function with recursion off and on.",
-    "note": "resolver_sound_complete is proved as _partial: the 30 non-scoping rules plus RUndefined (undefined_sound_complete, up to the resolver's memoisation of failed lookups, which the theorem states); the equivalence for the remaining scoping rules (set without the Set option, top-level rebinding, load rebinding) is not proved against a declarative specification -- they are modelled executable, tied by exact correspondence on every run and checked against Spec.scope_viol as an oracle; accepted -> no violation is proved (incl. no undefined use), the converse only for the proved rules. Spec.scope_viol is inexact in two corners the generator does not reach (a use inside a file-level tuple target after a binding in the same target, under GlobalReassign; parameter lists with a superfluous * or **): Properties.ex_oracle_corners. Trusted: Coq kernel + vm_compute; the harness and its translation of syntax.File into the model's syntax; rule classes are read from resolver messages by substring; the function-depth counter of the model stands for container().function != nil.",
+    "text": "Coq theorems over a state-passing model of the resolver (context counters, option gating, parameter-list and argument-list scans, load rules, assignment targets, scoping with the block table, the predeclared-name cache and lookupLexical's memoisation) against a declarative specification of the static rules, for ALL programs of the modelled syntax and ALL 2^6 option vectors: the resolver accepts a program iff no static rule is broken (all 35 rules: resolver_accepts_iff_no_rule_broken); a (rule, position) is reported iff the specification says the rule is violated there, exactly, for the 30 rules that need no name resolution beyond the parameter list itself (break/continue/return/load placement, if/for/while at top level, while, assignment targets, order and duplicates of arguments, the 255 limits, order and duplicates of parameters, bare *) and for top-level rebinding (RReassign, against the check's oracle Spec.scope_viol itself); for load rebinding exactly unless a load statement is nested in a function (itself an error); the scoping rules 'undefined name' and 'set without the Set option' are proved against a declarative scoping specification (ScopeSpec.v: every identifier use with the binding sets of its enclosing function/comprehension blocks; undefined = bound by no enclosing block, by no file-level binding of the module -- anywhere in the file, or so far under GlobalReassign --, not predeclared, not universal): every report is at such a use, every such use leads to a report of the same rule (for undefined names: of the same name; at its own position when the use is outside every block) -- lookupLexical memoises failed lookups and useToplevel caches predeclared/universal names, so repeats are reported once, which the theorems state; the check's executable oracle Spec.scope_viol names exactly these uses on regular programs (the two corners where it differs from the resolver are stated as examples); while and top-level if/for/while are rejected exactly when While resp. TopLevelControl is off and no other option influences these rules; an option that is ON never causes a rejection (all six options, including Set and GlobalReassign); duplicate parameters are reported exactly as specified for every parameter list; a rejected program performs no effect in the pipeline model; and, over a model of Call/CallInternal's stack scan: with recursion off the active function frames have pairwise distinct code identities under ALL call sequences (direct, mutual, through built-in frames, through different closures of one definition) and a re-entering call fails. Tied to /repo on every run: generated programs with one of 125 planted constructs x option vectors through the real parse/resolve/compile/run pipeline with logging built-ins; the real syntax tree is translated into the model's syntax and the model's error list compared with the resolver's (exact list, vm_compute), the specification (incl. an executable scoping oracle) with the reported errors; call graphs reaching an active function with recursion off and on.",
+    "note": "The per-node equivalence 'reported iff broken' is exact for 31 rules; for RUndefined and RSetUnsupported it holds up to the resolver's once-only reporting of repeated failed lookups (the naive per-node statement is false for the code as it is, see Properties.ex_memoised_once; a program with such a use is rejected); for RLoadReassign it is proved except at the items of a load statement nested in a function (named _partial). Spec.scope_viol is inexact in two corners the generator does not reach (a use inside a file-level tuple target after a binding in the same target, under GlobalReassign; parameter lists with a superfluous * or **): Properties.ex_oracle_corners; the theorems about it are stated for regular programs (ScopeSpec.regular). Trusted: Coq kernel + vm_compute; the harness and its translation of syntax.File into the model's syntax; rule classes are read from resolver messages by substring; the function-depth counter of the model stands for container().function != nil.",
     "technique": "Coq proof over executable model + differential correspondence on real syntax trees (vm_compute) + independent expectation oracle in the harness",
 }
 
